@@ -198,6 +198,10 @@ func driveConc(seed uint64, n int, size int, em *Emitter) {
 		// and time, a block context that differs in one field) ran before it in this process
 		em.Op("C16,C17", "S det-interleaved", detInterleaved(r))
 
+		// the journal instructions from several instances at once: long strings (hashed slot positions, multi-slot reads) journaled
+		// hundreds of times per instance; every instance must record exactly what its own storage holds
+		em.Op("C17,C09", "S conc-journal", concJournal(r))
+
 		// C16: what one instance recorded and handed back (call tree with calldata and return data of every call, the bytes
 		// returned to the embedder) is not changed by another instance running afterwards on its own state database
 		em.Op("C16,C17", "S recorded-stable", recordedStable(r, cases))
@@ -522,4 +526,98 @@ func bytesOf(b byte, n int) []byte {
 		out[i] = b
 	}
 	return out
+}
+
+// concJournal: 8 instances, each with its own state database holding 2-3 strings of 32..100 bytes, register them and run the
+// reference journal on each of them 150 times; alone first, then all at once for several rounds.
+func concJournal(r *Rng) string {
+	const workers = 8
+	typ := uint256.NewInt(9)
+	type inst struct {
+		c        *jcase
+		code     []byte
+		slots    []*uint256.Int
+		contents [][]byte
+	}
+	insts := make([]*inst, workers)
+	for w := range insts {
+		st := map[common.Hash]common.Hash{}
+		c := &jcase{fork: forkNames[4+r.Intn(9)], storage: st}
+		in := &inst{c: c}
+		k := 2 + r.Intn(2)
+		for i := 0; i < k; i++ {
+			slot := uint256.NewInt(uint64(3 + 8*i))
+			content := stringContent(r, []int{100, 70, 64, 40, 33, 32}[r.Intn(6)])
+			content[0] = byte(0x10*w + i + 1) // distinguishable across instances and variables
+			putString(st, slot, content)
+			in.slots, in.contents = append(in.slots, slot), append(in.contents, content)
+			lw := uint256.NewInt(1).Bytes32()
+			c.mem = append(c.mem, pad32(append(lw[:], byte('s'+i)))...)
+			c.ops = append(c.ops, jinstr{op: 0, args: []*uint256.Int{uint256.NewInt(uint64(64 * i)), slot, typ}})
+		}
+		for rep := 0; rep < 150; rep++ {
+			for i := 0; i < k; i++ {
+				c.ops = append(c.ops, jinstr{op: 7, args: []*uint256.Int{in.slots[i], typ}})
+			}
+		}
+		in.code = c.program()
+		insts[w] = in
+	}
+	run := func(in *inst) (out string) {
+		defer func() {
+			if x := recover(); x != nil {
+				out = "panic:" + strings.ReplaceAll(fmt.Sprint(x), " ", "_")
+			}
+		}()
+		sdb := newStateDB()
+		env := newEnvDB(in.c.fork, nil, nil, sdb, sdb)
+		sdb.CreateAccount(contractAddr)
+		sdb.SetCode(contractAddr, in.code)
+		for k, v := range in.c.storage {
+			sdb.SetState(contractAddr, k, v)
+		}
+		env.evm.CloseAspectCall()
+		_, _, err := env.evm.Call(context.Background(), vm.AccountRef(callerAddr), contractAddr, in.c.mem, 30_000_000, new(big.Int))
+		if err != nil {
+			return "halted:" + strings.ReplaceAll(err.Error(), " ", "_")
+		}
+		for i, slot := range in.slots {
+			ch, e := env.evm.Tracer().StateChanges().Slot(contractAddr, slot, nil, typ.Bytes32())
+			got := "none"
+			if e == nil && ch != nil {
+				if l := ch.Changes()[0]; len(l) == 1 {
+					got = hexBytes(l[0])
+				} else {
+					got = fmt.Sprintf("%d_entries", len(l))
+				}
+			}
+			if got != hexBytes(in.contents[i]) {
+				return fmt.Sprintf("variable_%d_recorded_as_%.80s_storage_holds_%.80s", i, got, hexBytes(in.contents[i]))
+			}
+		}
+		return "ok"
+	}
+	for w, in := range insts {
+		if v := run(in); v != "ok" {
+			return fmt.Sprintf("alone:instance_%d:%s", w, v)
+		}
+	}
+	for round := 0; round < 4; round++ {
+		res := make([]string, workers)
+		var wg sync.WaitGroup
+		for w := range insts {
+			wg.Add(1)
+			go func(w int) {
+				defer wg.Done()
+				res[w] = run(insts[w])
+			}(w)
+		}
+		wg.Wait()
+		for w, v := range res {
+			if v != "ok" {
+				return fmt.Sprintf("concurrent_round_%d:instance_%d:%s", round, w, v)
+			}
+		}
+	}
+	return "same"
 }
